@@ -3,7 +3,7 @@
    (gen/Gen_Bessel.v) and which is executed in Coq on binary64 against the implementation.  Rep1 t0 v d: d carries the value and the derivative of
    the curve v at t0.  NOT proved here (and not provable by these means): that the rational / asymptotic approximations are close to the true Bessel
    functions -- that clause is decided on the implementation against 60-digit references.  Only `exact` proofs here. *)
-From ND Require Import Tactics C02_proofs C01_towers C01_faa C07_proofs C09_proofs Prog Agree C04_inst C03_proofs Bessel C14_proofs.
+From ND Require Import Tactics C02_proofs C01_towers C01_faa C07_proofs C09_proofs Prog Agree C04_inst C03_proofs C03_second C03_third C03_mixed Bessel C14_proofs C14_prog.
 From NDgen Require Import Gen_Bessel.
 Local Open Scope R_scope.
 
@@ -70,6 +70,85 @@ Proof. exact j2_even. Qed.
 Example C14_example : Rep1 2 (fun t => t) (mkDual 2 1) /\ lk (T:=R) L_bessel_j0 1 <= m_re (mkDual 2 1) <= lk (T:=R) L_bessel_j0 0.
 Proof. exact example_c14. Qed.
 
+(* ---- every order, every direction, every type: the branches reified as programs (Proofs/C14_prog.v) ----
+   Each branch of the hand model is proved equal, in every real-number instance, to the evaluation of a program of Hand/Prog.v built from the
+   regenerated tables; the program theorems of C03 then give, for the real function g the branch computes on its domain ok:
+   the value and derivative over Dual (Rep1), the second derivative over Dual2 (Rep2), the third over Dual3 (Rep3), both first and the mixed
+   second partial over HyperDual along two-parameter families (RepH), and every directional first derivative over HyperHyperDual, DualVec,
+   Dual2Vec and HyperDualVec (RepX; any component, any dimension, any presence pattern).  BranchOK is exactly that conjunction: *)
+Theorem C14_BranchOK_meaning : forall (g : R -> R) (ok : R -> Prop) (br : forall (T : Type) (dn : DN R T), T -> T),
+  BranchOK g ok br <->
+  ((forall t0 v (X : Dual R), Rep1 t0 v X -> ok (v t0) -> Rep1 t0 (fun t => g (v t)) (br _ _ X)) /\
+   (forall t0 v (X : Dual2 R), Rep2 t0 v X -> ok (v t0) -> Rep2 t0 (fun t => g (v t)) (br _ _ X)) /\
+   (forall t0 v (X : Dual3 R), Rep3 t0 v X -> ok (v t0) -> Rep3 t0 (fun t => g (v t)) (br _ _ X)) /\
+   (forall s0 t0 v (X : HyperDual R), RepH s0 t0 v X -> ok (v s0 t0) -> RepH s0 t0 (fun s t => g (v s t)) (br _ _ X)) /\
+   (forall k, (k = 1 \/ k = 2 \/ k = 3)%nat -> forall t0 v (X : HyperHyperDual R),
+      RepX (part:=part_HHD) (wf:=fun _ => True) k t0 v X -> ok (v t0) -> RepX (part:=part_HHD) (wf:=fun _ => True) k t0 (fun t => g (v t)) (br _ _ X)) /\
+   (forall (i : nat) t0 v (X : DualVec R),
+      RepX (part:=part_DualVec) (wf:=fun _ => True) i t0 v X -> ok (v t0) -> RepX (part:=part_DualVec) (wf:=fun _ => True) i t0 (fun t => g (v t)) (br _ _ X)) /\
+   (forall (i : nat) t0 v (X : Dual2Vec R),
+      RepX (part:=part_Dual2Vec) (wf:=wf_Dual2Vec) i t0 v X -> ok (v t0) -> RepX (part:=part_Dual2Vec) (wf:=wf_Dual2Vec) i t0 (fun t => g (v t)) (br _ _ X)) /\
+   (forall (l : nat + nat) t0 v (X : HyperDualVec R),
+      RepX (part:=part_HyperDualVec) (wf:=wf_HyperDualVec) l t0 v X -> ok (v t0) -> RepX (part:=part_HyperDualVec) (wf:=wf_HyperDualVec) l t0 (fun t => g (v t)) (br _ _ X))).
+Proof. exact (fun g ok br => conj (fun H => H) (fun H => H)). Qed.
+Theorem C14_j0_small_all_orders : BranchOK (fun r => j0_small (T:=R) (r * r)%rs) (fun _ => True) (fun T dn x => j0_small (x * x)%rs).
+Proof. exact j0_small_branch. Qed.
+Theorem C14_j0_mid_all_orders : BranchOK (fun r => j0_mid (T:=R) (r * r)%rs) (fun _ => True) (fun T dn x => j0_mid (x * x)%rs).
+Proof. exact j0_mid_branch. Qed.
+Theorem C14_j0_asym_all_orders : BranchOK (fun r => j0_asym (T:=R) r) (fun r => 0 < r) (fun T dn x => j0_asym x).
+Proof. exact j0_asym_branch. Qed.
+Theorem C14_j1_mid_all_orders : BranchOK (fun r => j1_mid (T:=R) r) (fun _ => True) (fun T dn x => j1_mid x).
+Proof. exact j1_mid_branch. Qed.
+(* the asymptotic branch of J1 on a positive real part: there it IS the one-input program j1_asym_pos_prog (signum = 1, |x| = x), in every type *)
+Theorem C14_j1_asym_positive :
+  (forall x : R, 0 < x -> j1_asym x = j1_asym_pos x) /\ (forall x : Dual R, 0 < Dual_f_re x -> j1_asym x = j1_asym_pos x) /\
+  (forall x : Dual2 R, 0 < Dual2_f_re x -> j1_asym x = j1_asym_pos x) /\ (forall x : Dual3 R, 0 < Dual3_f_re x -> j1_asym x = j1_asym_pos x) /\
+  (forall x : HyperDual R, 0 < HyperDual_f_re x -> j1_asym x = j1_asym_pos x) /\ (forall x : HyperHyperDual R, 0 < part_HHD x nil -> j1_asym x = j1_asym_pos x) /\
+  (forall x : DualVec R, 0 < part_DualVec x nil -> j1_asym x = j1_asym_pos x) /\ (forall x : Dual2Vec R, 0 < part_Dual2Vec x nil -> j1_asym x = j1_asym_pos x) /\
+  (forall x : HyperDualVec R, 0 < part_HyperDualVec x nil -> j1_asym x = j1_asym_pos x).
+Proof. exact j1_asym_positive. Qed.
+Theorem C14_j1_asym_all_orders : BranchOK (fun r => j1_asym_pos (T:=R) r) (fun r => 0 < r) (fun T dn x => j1_asym_pos x).
+Proof. exact j1_asym_pos_branch. Qed.
+Theorem C14_j2_series_all_orders : BranchOK (fun r => j2_series (T:=R) r) (fun _ => True) (fun T dn x => j2_series x).
+Proof. exact j2_series_branch. Qed.
+(* the recurrence 2 J1(x)/x - J0(x) where both functions take their rational branches (0.25 <= |x| <= 5) *)
+Theorem C14_j2_recurrence_all_orders :
+  BranchOK (fun r => (j1_mid (T:=R) r * (lk (T:=R) L_bessel_j2 2 : R) / r - j0_mid (T:=R) (r * r))%rs) (fun r => r <> 0)
+           (fun T dn x => (j1_mid x * (lk (T:=T) L_bessel_j2 2 : R) / x - j0_mid (x * x))%rs).
+Proof. exact j2_rec_mid_branch. Qed.
+
+(* the functions themselves (branch selection included) at second and third order on the open ranges: the v2 / v3 parts are the second / third
+   derivatives of the real function bessel_jN computes *)
+Theorem C14_j0_second_mid : forall t0 v (x : Dual2 R), Rep2 t0 v x -> lk (T:=R) L_bessel_j0 1 < v t0 < lk (T:=R) L_bessel_j0 0 ->
+  Rep2 t0 (fun t => bessel_j0 (T:=R) (v t)) (bessel_j0 x).
+Proof. exact j0_second_mid. Qed.
+Theorem C14_j0_second_outer : forall t0 v (x : Dual2 R), Rep2 t0 v x -> lk (T:=R) L_bessel_j0 0 < v t0 ->
+  Rep2 t0 (fun t => bessel_j0 (T:=R) (v t)) (bessel_j0 x).
+Proof. exact j0_second_outer. Qed.
+Theorem C14_j0_third_mid : forall t0 v (x : Dual3 R), Rep3 t0 v x -> lk (T:=R) L_bessel_j0 1 < v t0 < lk (T:=R) L_bessel_j0 0 ->
+  Rep3 t0 (fun t => bessel_j0 (T:=R) (v t)) (bessel_j0 x).
+Proof. exact j0_third_mid. Qed.
+Theorem C14_j0_third_outer : forall t0 v (x : Dual3 R), Rep3 t0 v x -> lk (T:=R) L_bessel_j0 0 < v t0 ->
+  Rep3 t0 (fun t => bessel_j0 (T:=R) (v t)) (bessel_j0 x).
+Proof. exact j0_third_outer. Qed.
+Theorem C14_j1_second_mid : forall t0 v (x : Dual2 R), Rep2 t0 v x -> Rabs (v t0) < lk (T:=R) L_bessel_j1 0 ->
+  Rep2 t0 (fun t => bessel_j1 (T:=R) (v t)) (bessel_j1 x).
+Proof. exact j1_second_mid. Qed.
+Theorem C14_j1_third_mid : forall t0 v (x : Dual3 R), Rep3 t0 v x -> Rabs (v t0) < lk (T:=R) L_bessel_j1 0 ->
+  Rep3 t0 (fun t => bessel_j1 (T:=R) (v t)) (bessel_j1 x).
+Proof. exact j1_third_mid. Qed.
+Theorem C14_j2_second_small : forall t0 v (x : Dual2 R), Rep2 t0 v x -> Rabs (v t0) < lk (T:=R) L_bessel_j2 0 ->
+  Rep2 t0 (fun t => bessel_j2 (T:=R) (v t)) (bessel_j2 x).
+Proof. exact j2_second_small. Qed.
+Theorem C14_j2_third_small : forall t0 v (x : Dual3 R), Rep3 t0 v x -> Rabs (v t0) < lk (T:=R) L_bessel_j2 0 ->
+  Rep3 t0 (fun t => bessel_j2 (T:=R) (v t)) (bessel_j2 x).
+Proof. exact j2_third_small. Qed.
+Example C14_example_second : Rep2 2 (fun t => t) (mkDual2 2 1 0) /\ lk (T:=R) L_bessel_j0 1 < 2 < lk (T:=R) L_bessel_j0 0.
+Proof. exact example_c14_second. Qed.
+
 Definition C14_bundle := (C14_polevl_spec, C14_p1evl_spec, C14_j0_small_derivative, C14_j0_mid_derivative, C14_j0_asym_derivative,
-  C14_j1_mid_derivative, C14_j2_series_derivative, C14_j0_derivative_mid, C14_j0_derivative_outer, C14_j1_derivative_mid, C14_j2_derivative_small, C14_switch_points, C14_denominators_positive, C14_j0_branches, C14_j2_branches, C14_j0_even, C14_j1_odd, C14_j2_even).
+  C14_j1_mid_derivative, C14_j2_series_derivative, C14_j0_derivative_mid, C14_j0_derivative_outer, C14_j1_derivative_mid, C14_j2_derivative_small, C14_switch_points, C14_denominators_positive, C14_j0_branches, C14_j2_branches, C14_j0_even, C14_j1_odd, C14_j2_even,
+  C14_BranchOK_meaning, C14_j0_small_all_orders, C14_j0_mid_all_orders, C14_j0_asym_all_orders, C14_j1_mid_all_orders, C14_j1_asym_positive, C14_j1_asym_all_orders,
+  C14_j2_series_all_orders, C14_j2_recurrence_all_orders, C14_j0_second_mid, C14_j0_second_outer, C14_j0_third_mid, C14_j0_third_outer, C14_j1_second_mid,
+  C14_j1_third_mid, C14_j2_second_small, C14_j2_third_small).
 Print Assumptions C14_bundle.
